@@ -59,6 +59,8 @@ MUTANTS["C01"] = [
     ("rewrite-clears-on-partial-change", "annet/annlib/rulebook/common.py", "        if all(its[i].op == Op.AFFECTED for i, its in iter_diff(diff)):", "        if all(item.op == Op.AFFECTED for item in diff):"),
     ("affected-children-dropped-when-moved", "annet/annlib/rulebook/common.py", "        key = Op.ADDED if diff.get(Op.ADDED) else Op.MOVED\n        # При модификации строки удаление нас не интересует, добавление проходит как affected\n        yield (True, diff[key][0][\"row\"], diff[key][0][\"children\"])",
      "        key = Op.ADDED if diff.get(Op.ADDED) else Op.MOVED\n        yield (True, diff[key][0][\"row\"], diff[key][0][\"children\"] if key == Op.ADDED else None)"),
+    ("ignore_case-lowercases-every-sibling", "annet/annlib/rulebook/common.py", "        new_row = row\n        if diff_pre[row][\"match\"][\"attrs\"][\"ignore_case\"]:\n            new_row = row.lower()", "        new_row = row.lower()"),
+    ("huawei-order-undo-mtu-after-everything", "annet/rulebook/texts/huawei.order", "    ~\n    poe\n", "    ~\n    poe\n    undo mtu  %order_reverse\n"),
 ]
 
 MUTANTS["C01"] += [
